@@ -1417,6 +1417,327 @@ def zvode_part(ctx, rng, only=None):
     ctx.sample({"zvode_case": cases[0], "impl_views": [list(map(str, x)) for x in runs[0][0][:4]]})
 
 
+# ----------------------------- Solver call protocol (run/start/step/options)
+SV_HEADER = ("From Coq Require Import List ZArith Bool.\nImport ListNotations.\n"
+             "From QV Require Import Model.C11_solver.\nOpen Scope Z_scope.\n")
+SV_KEYS = ["method", "store_final_state", "normalize_output", "atol", "rtol", "nsteps",
+           "order", "first_step"]
+SV_METH = {"adams": 0, "fa": 1, "fb": 2, "fc": 3}
+SV_METH_R = {v: k for k, v in SV_METH.items()}
+SV_MOD = 1000003
+_SV = {}
+
+
+def sv_classes():
+    """Scripted integrator classes registered through add_integrator; they
+    record every call made on them.  Base-class reset / arguments / options
+    logic is the real one."""
+    if _SV:
+        return _SV
+    import qutip.core.data as _data
+    from qutip.solver.integrator.integrator import Integrator
+    from qutip.solver.sesolve import SESolver
+    from qutip.solver.mesolve import MESolver
+    LOG = []
+    COUNT = [0]
+
+    def make(name, mid, opts):
+        class Scripted(Integrator):
+            integrator_options = dict(opts)
+            support_time_dependant = True
+            supports_blackbox = False
+            method = name
+
+            def __init__(self, system, options):
+                self._sv_quiet = True
+                COUNT[0] += 1
+                self._sv_id = COUNT[0]
+                Integrator.__init__(self, system, options)
+                self._sv_quiet = False
+                LOG.append(("ECtor", self._sv_id, mid, self._vals()))
+
+            def _vals(self):
+                return [int(self._options[k]) if k in self.integrator_options else 0
+                        for k in SV_KEYS]
+
+            def _prepare(self):
+                self.name = name
+                if not self._sv_quiet:
+                    LOG.append(("EPrepare", self._sv_id))
+
+            def _w(self):
+                L = self.system(0).full()
+                z = L[1, 1] if self.system.issuper else L[0, 0]
+                return int(round(abs(z)))
+
+            def set_state(self, t, state0):
+                self._t = int(t)
+                self._y = _data.to(_data.Dense, state0).copy()
+                self._is_set = True
+                LOG.append(("ESet", self._sv_id, int(t), int(round(self._y.to_array()[0, 0].real))))
+
+            def get_state(self, copy=True):
+                return self._t, (self._y.copy() if copy else self._y)
+
+            def integrate(self, t, copy=True):
+                LOG.append(("EInt", self._sv_id, int(t)))
+                arr = self._y.to_array().copy()
+                x = int(round(arr[0, 0].real))
+                osum = sum((i + 1) * int(self._options[k]) for i, k in enumerate(SV_KEYS)
+                           if k in self.integrator_options)
+                x2 = (x * 3 + 7 * mid + osum + 11 * self._w() + 13 * self._t + 17 * int(t)) % SV_MOD
+                arr[0, 0] = x2
+                self._y = _data.Dense(arr)
+                self._t = int(t)
+                return self.get_state(copy)
+
+            def arguments(self, args):
+                LOG.append(("EArgs", self._sv_id, int(args["k"])))
+                Integrator.arguments(self, args)
+
+            @property
+            def options(self):
+                """scripted integrator"""
+                return self._options
+
+            @options.setter
+            def options(self, new):
+                Integrator.options.fset(self, new)
+                if not getattr(self, "_sv_quiet", True):
+                    LOG.append(("EOpt", self._sv_id, self._vals()))
+        Scripted.__name__ = "Scripted_" + name
+        return Scripted
+
+    classes = {"fa": make("fa", 1, {"atol": 8, "rtol": 6, "nsteps": 2500}),
+               "fb": make("fb", 2, {"atol": 8, "order": 5}),
+               "fc": make("fc", 3, {"rtol": 6, "first_step": 0})}
+    for cls in (SESolver, MESolver):
+        for k, c in classes.items():
+            cls.add_integrator(c, k)
+    _SV.update({"log": LOG, "count": COUNT})
+    return _SV
+
+
+def sv_dict(d):
+    """[(key index, value or None)] -> options dictionary"""
+    out = {}
+    for k, v in d:
+        name = SV_KEYS[k]
+        if k == 0:
+            out[name] = SV_METH_R[v]
+        elif k in (1, 2):
+            out[name] = None if v is None else bool(v)
+        else:
+            out[name] = v
+    return out
+
+
+def run_solver_impl(case):
+    from qutip import Qobj, QobjEvo, basis
+    from qutip.solver.sesolve import SESolver
+    from qutip.solver.mesolve import MESolver
+    sv = sv_classes()
+    LOG, COUNT = sv["log"], sv["count"]
+    del LOG[:]
+    COUNT[0] = 0
+    Hd = Qobj(np.array([[1, 0], [0, 0]], dtype=complex))
+    H = QobjEvo([[Hd, _coeff_k]], args={"k": case["w0"]})
+    cls = SESolver if case["solver"] == "se" else MESolver
+    solver = cls(H, options=sv_dict(case["init"]))
+    views = []
+
+    def state(x):
+        from qutip import ket2dm
+        return x * (basis(2, 0) if case["solver"] == "se" else ket2dm(basis(2, 0)))
+
+    def tag(q):
+        return int(round(q.full()[0, 0].real))
+
+    def optvals():
+        o = solver.options
+        return [int(SV_METH[o[k]]) if k == "method" else (int(o[k]) if k in o else 0)
+                for k in SV_KEYS]
+
+    pre = list(LOG)
+    del LOG[:]
+    bad, cur_w, position = [], case["w0"], None
+    for op in case["ops"]:
+        err, xs = False, []
+        try:
+            if op[0] == "opts":
+                solver.options = sv_dict(op[1])
+            elif op[0] == "item":
+                solver.options[SV_KEYS[op[1]]] = sv_dict([(op[1], op[2])])[SV_KEYS[op[1]]]
+            elif op[0] == "start":
+                solver.start(state(op[1]), op[2])
+            elif op[0] == "step":
+                kw = {"args": {"k": op[2]}} if op[2] is not None else {}
+                xs = [tag(solver.step(op[1], **kw))]
+            elif op[0] == "run":
+                kw = {"args": {"k": op[4]}} if op[4] is not None else {}
+                r = solver.run(state(op[1]), [op[2]] + list(op[3]), **kw)
+                xs = [tag(q) for q in r.states]
+        except (KeyError, RuntimeError):
+            err = True
+        ev = [tuple(e) for e in LOG]
+        views.append((err, xs, ev, optvals()))
+        del LOG[:]
+        # the property on the implementation trace (independent of the model):
+        # the integrator in use is the one the options name and holds their values
+        I = solver._integrator
+        o = solver.options
+        if I.method != o["method"] or any(I.options[k] != o[k] for k in I.integrator_options):
+            bad.append("integrator-incoherent: after %r the integrator is %s with %r but the "
+                       "options say %s with %r" % (op, I.method, dict(I.options), o["method"],
+                                                  {k: o[k] for k in I.integrator_options}))
+        # and a step asks for the flow under the values last set
+        if op[0] in ("step", "run") and op[-1] is not None and not err:
+            cur_w = op[-1]
+        if op[0] == "start":
+            position = (op[2], op[1])
+        if op[0] == "run" and not err:
+            position = (op[2], op[1])
+            for t_, x_ in zip(op[3], xs[1:]):
+                want = sv_flow(o, cur_w, position[0], t_, position[1])
+                if x_ != want:
+                    bad.append("wrong-evolution-request: run%r handed out %d at t=%d, the options / "
+                               "arguments last set give %d" % (tuple(op[1:]), x_, t_, want))
+                position = (t_, x_)
+        if op[0] == "step" and not err and position is not None:
+            want = sv_flow(o, cur_w, position[0], op[1], position[1])
+            if xs[0] != want:
+                bad.append("wrong-evolution-request: step%r handed out %d, the options / arguments "
+                           "last set and the position %r give %d" % (tuple(op[1:]), xs[0], position, want))
+            position = (op[1], xs[0])
+    return pre, views, bad
+
+
+def sv_flow(o, w, t, t2, x):
+    mid = SV_METH[o["method"]]
+    keys = {1: ["atol", "rtol", "nsteps"], 2: ["atol", "order"], 3: ["rtol", "first_step"]}[mid]
+    osum = sum((SV_KEYS.index(k) + 1) * int(o[k]) for k in keys)
+    return (x * 3 + 7 * mid + osum + 11 * w + 13 * t + 17 * t2) % SV_MOD
+
+
+def coq_sops(case):
+    def od(d):
+        return clist(d, lambda p: "(%s, %s)" % (cnat(p[0]), copt(p[1], cz)))
+    ops = []
+    for op in case["ops"]:
+        if op[0] == "opts":
+            ops.append("SOpts %s" % od(op[1]))
+        elif op[0] == "item":
+            ops.append("SItem %s %s" % (cnat(op[1]), copt(op[2], cz)))
+        elif op[0] == "start":
+            ops.append("SStart %s %s" % (cz(op[1]), cz(op[2])))
+        elif op[0] == "step":
+            ops.append("SStep %s %s" % (cz(op[1]), copt(op[2], cz)))
+        else:
+            ops.append("SRun %s %s %s %s" % (cz(op[1]), cz(op[2]), clist(op[3], cz),
+                                           copt(op[4], cz)))
+    return "x_trace (fst (x_init %s %s)) %s" % (cz(case["w0"]), od(case["init"]), clist(ops))
+
+
+def gen_solver_case(rng):
+    ode = {1: [3, 4, 5], 2: [3, 6], 3: [4, 7]}
+    vals = {3: [8, 9, 10], 4: [6, 7], 5: [2500, 1000, 5000], 6: [5, 3], 7: [0, 1]}
+
+    def rdict(cur_m, with_method):
+        d, m = [], cur_m
+        if with_method:
+            m = rng.choice([1, 2, 3])
+            d.append((0, m))
+        keys = list(ode[m])
+        if rng.random() < 0.15:
+            keys = [3, 4, 5, 6, 7]                 # may contain an unsupported key
+        for k in rng.sample(keys, rng.randint(0, min(2, len(keys)))):
+            d.append((k, rng.choice(vals[k] + [None])))
+        if rng.random() < 0.3:
+            d.append((rng.choice([1, 2]), rng.choice([0, 1])))
+        rng.shuffle(d)
+        return d, m
+    m = rng.choice([1, 2, 3])
+    init = [(0, m)] + [(k, rng.choice(vals[k] + [None]))
+                       for k in rng.sample(ode[m], rng.randint(0, 2))]
+    ops, t = [], 0
+    for _ in range(rng.choice([3, 5, 8, 12])):
+        r = rng.random()
+        if r < 0.2:
+            d, m2 = rdict(m, rng.random() < 0.5)
+            ops.append(["opts", d])
+            # the method may stay the old one when the assignment is refused
+        elif r < 0.35:
+            k = rng.choice([0, 1, 2, 3, 4, 5, 6, 7])
+            v = rng.choice([1, 2, 3]) if k == 0 else rng.choice((vals.get(k) or [0, 1]) + [None])
+            if k == 0 and v is None:
+                v = 1
+            ops.append(["item", k, v])
+        elif r < 0.5:
+            t = rng.randint(-3, 3)
+            ops.append(["start", rng.randint(2, 50), t])
+        elif r < 0.8:
+            t += rng.randint(1, 3)
+            ops.append(["step", t, rng.choice([None, None, 1, 2, 3])])
+        else:
+            t0 = rng.randint(-3, 3)
+            tl = [t0 + i + 1 for i in range(rng.randint(0, 3))]
+            t = tl[-1] if tl else t0
+            ops.append(["run", rng.randint(2, 50), t0, tl, rng.choice([None, None, 1, 2, 3])])
+    return {"solver": rng.choice(["se", "me"]), "w0": rng.choice([1, 2]), "init": init, "ops": ops}
+
+
+def solver_protocol_part(ctx, rng, only=None):
+    ncases = 150 if ctx.quick else 1500
+    cases = [{"solver": "se", "w0": 1, "init": [(0, 1), (3, 10)],
+              "ops": [["start", 5, 0], ["step", 1, None], ["opts", [(0, 3), (4, 6)]],
+                      ["step", 2, 2], ["run", 7, 0, [1, 2], 3], ["step", 4, None],
+                      ["item", 4, 7], ["step", 5, None], ["opts", [(0, 1), (3, 10)]],
+                      ["step", 6, 3]]}]
+    if only is not None:
+        cases, ncases = [only], 1
+    while len(cases) < ncases:
+        cases.append(gen_solver_case(rng))
+    runs = [run_solver_impl(c) for c in cases]
+    try:
+        vals = vlib.coq_eval_values("cases_C11s", SV_HEADER, [coq_sops(c) for c in cases],
+                                    chunk=150)
+    except RuntimeError as e:
+        ctx.violation("corr:C11:solver-model-eval", "coqc", "model evaluation failed",
+                      {"log": str(e)}, found_input=False)
+        return
+    agree = 0
+    for c, (pre, views, bad), v in sorted(zip(cases, runs, vals),
+                                          key=lambda z: 0 if z[1][2] else 1):
+        if bad:
+            ctx.violation("solver_base.Solver:protocol", bad[0].split(":")[0], bad[0],
+                          {"kind": "solverproto", "case": c})
+        model = []
+        for x in vlib.parse_coq_value(v):
+            err, xs, evs, ov = x
+            model.append((err, list(xs), [tuple(e) if isinstance(e, tuple) else (e,) for e in evs],
+                          list(ov)))
+        im = [(a, list(b), [tuple(list(e[:-1]) + [list(e[-1])]) if isinstance(e[-1], list) else e
+                            for e in ev], list(o)) for a, b, ev, o in views]
+        model = [(a, b, [tuple(list(e[:-1]) + [list(e[-1])]) if isinstance(e[-1], list) else e
+                         for e in ev], o) for a, b, ev, o in model]
+        ctx.count_case(("solverproto", json.dumps(c)), nontrivial=len(c["ops"]) >= 4)
+        ctx.cov["traces_validated_against_impl"] += 1
+        if im == model:
+            agree += 1
+            continue
+        first = next((j for j in range(min(len(im), len(model))) if im[j] != model[j]), 0)
+        ctx.violation("corr:solver_base.Solver", bad[0].split(":")[0] if bad else "model-differs",
+                      "Solver (run/start/step/options) and its model disagree on a call history"
+                      + ("; implementation violates the property: " + bad[0] if bad else ""),
+                      {"kind": "solverproto", "case": c, "first_differing_op": first,
+                       "op": c["ops"][first] if first < len(c["ops"]) else None,
+                       "impl": [str(im[first])] if first < len(im) else None,
+                       "model": [str(model[first])] if first < len(model) else None},
+                      found_input=bool(bad))
+    ctx.cov["solver_protocol_agreement"] = {"cases": len(cases), "agree": agree}
+    ctx.sample({"solver_protocol_case": cases[0]})
+
+
 def stochastic_part(ctx, rng):
     """StochasticSolver.run_from_experiment must leave the solver as it was:
     a later run(seed) equals the run of a fresh solver."""
@@ -1800,6 +2121,7 @@ def run(ctx):
     special_state_part(ctx, rng)
     krylov_part(ctx, rng)
     zvode_part(ctx, rng)
+    solver_protocol_part(ctx, rng)
     stochastic_part(ctx, rng)
     ctx.cov["explanation"] = (
         "Theorems (Props/C11.v) hold for every history of the model; the model is tied "
@@ -1845,6 +2167,13 @@ def replay(ctx, payload):
         r = run_special_case(d["case"])
         if r is not None and r[0] not in ("skip", "within"):
             ctx.violation(r[0], r[1], r[2], d)
+    elif kind == "solverproto":
+        c = d["case"]
+        c["init"] = [tuple(p) for p in c["init"]]
+        for op in c["ops"]:
+            if op[0] == "opts":
+                op[1] = [tuple(p) for p in op[1]]
+        solver_protocol_part(ctx, random.Random(0), only=c)
     elif kind == "zvode":
         zvode_part(ctx, random.Random(0), only=d["case"])
     elif kind == "krylov":
